@@ -126,6 +126,25 @@ def replay_case(case):
             pass
         if case["tag"] == "arrow_dictionary" and label.startswith("Categorical"):
             forms = [f for f in forms if f[0] == "narwhals-arrow"]
+        # (added) a specification recorded where the column `v` held numbers, applied to this frame, where it holds text / categories: whether
+        # that is an error is C09's matter - AllNumeric speaks about every matrix that is returned, so if one is returned it is numeric
+        if not (case["tag"] == "arrow_dictionary" and label.startswith("Categorical")):
+            numdf = pandas.DataFrame({"v": pandas.Series(list(range(len(df))), dtype="int64"), "w": df["w"]})
+            for output in OUTPUTS:
+                try:
+                    nspec = model_matrix(case["formula"], numdf, output=output, ensure_full_rank=case["full_rank"], context={}).model_spec
+                except Exception:  # noqa  (the preparation is not judged)
+                    continue
+                n += 1
+                try:
+                    mm3 = nspec.get_model_matrix(df, context={})
+                except Exception:  # noqa  (a refusal returns no matrix)
+                    continue
+                if not all_numeric(mm3, output):
+                    bad.append({"values": case["vset"], "tag": case["tag"], "constructor": label, "dtype": str(series.dtype), "data": "pandas", "output": output, "formula": case["formula"],
+                                "nulls": case["nulls"], "full_rank": case["full_rank"], "entry": "a specification recorded on a frame whose column v held integers, applied to this frame",
+                                "why": "non-numeric-cells",
+                                "observed": (str(numpy.asarray(mm3).tolist()) if output == "numpy" else str(mm3.dtypes.to_dict()) if output == "pandas" else str(mm3.dtype))[:200]})
         for form, data, mat in forms:
             # every output through the top-level function, then every output again through ONE materializer object (each call
             # after the first comes after a call for another output type: what one call encoded is not what the next may hand out)
